@@ -2667,6 +2667,58 @@ v("C08", "silent-nil-predicate-switch", "inprocgrpc/in_process.go",
   why="behaviour-preserving: the conjunction written as an if")
 
 
+# ------------------------------------------------------------------ D20
+D20_METHODS = """
+// The wrapper exists only to carry the finalizer above. Each operation keeps
+// it reachable until the wrapped operation has returned: otherwise a garbage
+// collection during the caller's last use of the stream (for example a final,
+// blocked RecvMsg) could run the finalizer and cancel a call that is in progress.
+
+func (w *clientStreamWrapper) Header() (metadata.MD, error) {
+	defer runtime.KeepAlive(w)
+	return w.ClientStream.Header()
+}
+
+func (w *clientStreamWrapper) Trailer() metadata.MD {
+	defer runtime.KeepAlive(w)
+	return w.ClientStream.Trailer()
+}
+
+func (w *clientStreamWrapper) CloseSend() error {
+	defer runtime.KeepAlive(w)
+	return w.ClientStream.CloseSend()
+}
+
+func (w *clientStreamWrapper) Context() context.Context {
+	defer runtime.KeepAlive(w)
+	return w.ClientStream.Context()
+}
+
+func (w *clientStreamWrapper) SendMsg(m interface{}) error {
+	defer runtime.KeepAlive(w)
+	return w.ClientStream.SendMsg(m)
+}
+
+func (w *clientStreamWrapper) RecvMsg(m interface{}) error {
+	defer runtime.KeepAlive(w)
+	return w.ClientStream.RecvMsg(m)
+}
+"""
+v("C04", "d20-finalizer-on-promoting-wrapper", "httpgrpc/client.go", D20_METHODS, "", "R9", "cancel-finalizer",
+  "pre-fix D20: the wrapper that carries the cancelling finalizer only promotes the stream's methods")
+v("C02", "d20-recvmsg-without-keepalive", "httpgrpc/client.go",
+  "func (w *clientStreamWrapper) RecvMsg(m interface{}) error {\n\tdefer runtime.KeepAlive(w)\n\treturn w.ClientStream.RecvMsg(m)\n}",
+  "func (w *clientStreamWrapper) RecvMsg(m interface{}) error {\n\treturn w.ClientStream.RecvMsg(m)\n}", "R6", "cancel-finalizer",
+  "one operation does not hold the wrapper: a collection during a blocked RecvMsg cancels the call")
+v("C04", "inproc-finalizer-on-fresh-handle", "inprocgrpc/in_process.go",
+  "\truntime.SetFinalizer(cs, func(stream *inProcessClientStream) {\n\t\tcancel()\n\t})\n\treturn cs, nil",
+  "\th := &streamHandle{cs}\n\truntime.SetFinalizer(h, func(*streamHandle) {\n\t\tcancel()\n\t})\n\treturn h, nil\n}\n\ntype streamHandle struct {\n\t*inProcessClientStream",
+  "R9", "cancel-finalizer", "the in-process stream gets the same promoting wrapper the HTTP one had")
+v("C04", "silent-keepalive-after-call", "httpgrpc/client.go",
+  "func (w *clientStreamWrapper) CloseSend() error {\n\tdefer runtime.KeepAlive(w)\n\treturn w.ClientStream.CloseSend()\n}",
+  "func (w *clientStreamWrapper) CloseSend() error {\n\terr := w.ClientStream.CloseSend()\n\truntime.KeepAlive(w)\n\treturn err\n}", silent=True,
+  why="behaviour-preserving: KeepAlive after the delegated call instead of deferred")
+
 
 def main():
     if os.path.isdir(OUT):
